@@ -4,4 +4,5 @@ CONSTANTS
   FlushEvery = TRUE
 INVARIANT StoresAgreeOnPrefix
 INVARIANT NoCommittedBlockLost
+INVARIANT WalIntactWhenWriting
 ACTION_CONSTRAINT DumpCrash
